@@ -60,6 +60,10 @@ def make(name: str, *args):
         from .survey import SurveyScenario
 
         return SurveyScenario()
+    if name == "C15":
+        from .validation import InputFileScenario, ParamScenario
+
+        return Mix("C15", [(3, InputFileScenario()), (2, ParamScenario())])
     if name == "C18":
         from .drillhole import DrillholeScenario
 
